@@ -159,8 +159,14 @@ fn apply_bsd0_patch(patch: &PatchFile, base_data: &[u8]) -> Result<Vec<u8>> {
 
     // Calculate block positions
     let ctrl_start = 32; // After bsdiff header
-    let data_start = ctrl_start + ctrl_block_size;
-    let extra_start = data_start + data_block_size;
+    // (the block sizes come from the patch: a hostile value must not wrap the offsets)
+    let size_overflow = || Error::invalid_format("BSD0 patch block sizes overflow".to_string());
+    let data_start = ctrl_block_size
+        .checked_add(ctrl_start)
+        .ok_or_else(size_overflow)?;
+    let extra_start = data_start
+        .checked_add(data_block_size)
+        .ok_or_else(size_overflow)?;
 
     // Validate block sizes
     if extra_start > bsdiff_data.len() {
